@@ -16,8 +16,26 @@ theorem c10_fresh (url : String) (existing : List Ns) :
     (mkNs url existing).uri = url ∧
     (mkNs url existing).rustModName = "mod_" ++ (mkNs url existing).abbreviation := by
   refine ⟨?_, rfl, rfl⟩
-  have := findFree_fresh (abbreviationBase url) (existing.map (·.abbreviation))
-  simpa [mkNs, makeAbbreviatedNamespace] using this
+  have h1 := findFree_fresh (abbreviationBase url) (existing.map (·.abbreviation))
+  have h2 := findFree_fresh (abbreviationBase "") (existing.map (·.abbreviation))
+  show abbreviationForNewNamespace url existing ∉ _
+  unfold abbreviationForNewNamespace
+  by_cases hx : startsWithXml (makeAbbreviatedNamespace url existing) = true
+  · simp only [hx, if_true]
+    simpa [makeAbbreviatedNamespace] using h2
+  · simp only [hx]
+    simpa [makeAbbreviatedNamespace] using h1
+
+/-- … and never one that begins with the reserved `xml`, when the fallback stem does not (it is `ns`) -/
+theorem c10_not_reserved (url : String) (existing : List Ns)
+    (h : startsWithXml (mkNs url existing).abbreviation = true) :
+    startsWithXml (makeAbbreviatedNamespace "" existing) = true := by
+  have h' : startsWithXml (abbreviationForNewNamespace url existing) = true := h
+  unfold abbreviationForNewNamespace at h'
+  by_cases hx : startsWithXml (makeAbbreviatedNamespace url existing) = true
+  · simpa [hx] using h'
+  · simp only [hx] at h'
+    exact absurd h' hx
 
 /-- the invariant of the namespace list: an abbreviation stands for one URI and a URI has one
     abbreviation (entries may repeat — `switch_to_target_namespace` pushes a known namespace again) -/
